@@ -319,6 +319,11 @@ def check_C09(ctx):
                             'patch': patch, 'tag': 'flip/%s/%s' % (form, '-'.join('%d:%d' % tuple(x) for x in patch))})
         n = dict(c); n['id'] = '%s/random/%d' % (c['id'], k); n['twin'] = c['id']; n['label'] = c['variant'] + '/junk-batch'; n['inject'] = inj
         scen.append(n)
+    # the same junk with trace logging on (log statements that format packet bytes run only then)
+    for s0 in [x for x in list(scen) if x.get('twin') and '/random/' not in x['id']][:: (6 if ctx.quick() else 1)]:
+        v = dict(s0); v['id'] = s0['id'] + '/verbose'; v['label'] = s0['label'] + '/trace-logging'; v['extra'] = dict(s0.get('extra') or {}, verbose=True)
+        c = dict([x for x in scen if x['id'] == s0['twin']][0]); c['id'] = c['id'] + '/verbose/' + str(len(scen)); v['twin'] = c['id']
+        scen += [c, v]
     lattice = [x for x in vt.tlc_generate(ctx, 'GenWire', 'C01', 0) if x.get('inject') and x['min'] == 1]
     if ctx.quick():
         lattice = [x for x in lattice if x['ipid_base'] == 41821][ctx.seed % 2::2]
@@ -592,6 +597,7 @@ def pub_scenarios(ctx):
 def check_C18(ctx):
     scen = vt.tlc_generate(ctx, 'GenDoc', 'C18', 400 if ctx.quick() else 0)
     scen += vt.tlc_generate(ctx, 'GenDoc', 'C18dup', 0)      # concurrent duplicate lookups, then a re-lookup that must hit the cache
+    scen += vt.tlc_generate(ctx, 'GenDoc', 'C18dst', 0)      # runs with different destination addresses
     scen += cache_scenarios(ctx, 'Enrich.cfg' if ctx.quick() else 'Enrich_6.cfg')[: (3000 if ctx.quick() else 10**9)]
     scen += pub_scenarios(ctx)
     wire_family(ctx, 'C18', scen,
